@@ -89,6 +89,7 @@ static Plan shrink(const Plan &orig, const std::function<bool(const Plan &)> &ho
             if (best.args[i].kind != AK_INT && best.args[i].kind != AK_RAWBYTES) { Plan c = best; c.args[i].kind = AK_INT; if (still(c)) { best = c; progress = true; } }
         }
         for (size_t i = 0; i < best.sinks.size(); i++) {
+            if (best.sinks[i].ctx) { Plan c = best; c.sinks[i].ctx = 0; if (still(c)) { best = c; progress = true; } }
             if (best.sinks[i].fault) { Plan c = best; c.sinks[i].fault = 0; if (still(c)) { best = c; progress = true; } }
             if (best.sinks[i].b) { Plan c = best; c.sinks[i].b = 0; if (still(c)) { best = c; progress = true; } }
             if (best.sinks[i].a) { Plan c = best; c.sinks[i].a = 0; if (still(c)) { best = c; progress = true; } }
